@@ -34,6 +34,15 @@ type Plan struct {
 	BadCloses []int
 	Sites     map[string]int // every site seen (observability of the enumeration)
 	IOonClosed []string      // read/write on an accepted descriptor after its close, before the number was handed out again
+
+	// Real short transfers: on tracked descriptors the wrapper hands a shorter buffer to the
+	// kernel (percent of the offered length, at least one byte; 0 = report EAGAIN without calling).
+	ShortReads  []int
+	ShortWrites []int
+	tracked     map[int]bool
+	taken       map[int]int64 // bytes the kernel accepted per tracked descriptor
+	ri, wi      int
+	ShortHits   int64
 }
 
 var cur atomic.Pointer[Plan]
@@ -44,6 +53,7 @@ func Install(p *Plan) {
 		p.mu.Lock()
 		if p.owned == nil {
 			p.owned, p.ever, p.Sites = map[int]bool{}, map[int]bool{}, map[string]int{}
+			p.tracked, p.taken = map[int]bool{}, map[int]int64{}
 		}
 		p.mu.Unlock()
 	}
@@ -139,6 +149,82 @@ func Closed(fd int) {
 			p.BadCloses = append(p.BadCloses, fd)
 		}
 		delete(p.owned, fd)
+		p.mu.Unlock()
+	}
+}
+
+// Track makes fd subject to short transfers and byte accounting (and resets its count).
+func (p *Plan) Track(fd int) {
+	p.mu.Lock()
+	p.tracked[fd] = true
+	p.taken[fd] = 0
+	p.mu.Unlock()
+}
+
+// Untrack stops short transfers and accounting on fd.
+func (p *Plan) Untrack(fd int) {
+	p.mu.Lock()
+	delete(p.tracked, fd)
+	p.mu.Unlock()
+}
+
+// Taken returns the bytes the kernel has accepted on a tracked descriptor.
+func (p *Plan) Taken(fd int) int64 {
+	p.mu.Lock()
+	defer p.mu.Unlock()
+	return p.taken[fd]
+}
+
+// Shorten tells a wrapper how many of n offered bytes to pass to the kernel
+// (ok=false: all of them; n=0: report EAGAIN instead of calling).
+func Shorten(read bool, fd int, n int) (int, bool) {
+	p := cur.Load()
+	if p == nil || n <= 0 {
+		return 0, false
+	}
+	p.mu.Lock()
+	defer p.mu.Unlock()
+	if !p.tracked[fd] {
+		return 0, false
+	}
+	var pct int
+	if read {
+		if len(p.ShortReads) == 0 {
+			return 0, false
+		}
+		pct = p.ShortReads[p.ri%len(p.ShortReads)]
+		p.ri++
+	} else {
+		if len(p.ShortWrites) == 0 {
+			return 0, false
+		}
+		pct = p.ShortWrites[p.wi%len(p.ShortWrites)]
+		p.wi++
+	}
+	if pct >= 100 {
+		return 0, false
+	}
+	p.ShortHits++
+	if pct <= 0 {
+		return 0, true
+	}
+	m := n * pct / 100
+	if m < 1 {
+		m = 1
+	}
+	return m, true
+}
+
+// Took records bytes accepted by the kernel on fd.
+func Took(fd int, n int) {
+	if n <= 0 {
+		return
+	}
+	if p := cur.Load(); p != nil {
+		p.mu.Lock()
+		if p.tracked[fd] {
+			p.taken[fd] += int64(n)
+		}
 		p.mu.Unlock()
 	}
 }
